@@ -19,6 +19,7 @@ def pieces():
         out.append(("markup", "{{" + l + " v " + r + "}}", l == "-", r == "-", "V"))
         out.append(("markup", "{%" + l + " assign q = 1 " + r + "%}", l == "-", r == "-", ""))
         out.append(("markup", "{%" + l + " # inline " + r + "%}", l == "-", r == "-", ""))
+        out.append(("markup", "{%" + l + " # " + r + "%}", l == "-", r == "-", ""))
         out.append(("markup", "{%" + l + " liquid echo v " + r + "%}", l == "-", r == "-", "V"))
         for l2, r2 in itertools.product(("", "-"), repeat=2):
             out.append(("markup", "{%" + l + " raw " + r2 + "%} {{ r }} {%" + l2 + " endraw " + r + "%}", l == "-", r == "-", " {{ r }} "))
